@@ -89,9 +89,84 @@ func (f *Func) WitEdges(es map[Edge]bool) []Witness {
 	return out
 }
 
-// WitDelete builds a witness that removes statement n (replaced by an empty
-// statement so that positions stay valid).
-func (f *Func) WitDelete(n ast.Node) Witness { return f.Wit(n, "{}", "delete-stmt") }
+// WitDelete builds a witness that removes the effect of statement n while
+// keeping its operands used (so that the variant still compiles): a call or
+// defer becomes a no-op function applied to the same arguments, an assignment
+// keeps only the evaluation of its right-hand side.
+func (f *Func) WitDelete(n ast.Node) Witness {
+	info := f.Info()
+	noop := func(call *ast.CallExpr) string {
+		var args []string
+		switch fun := ast.Unparen(call.Fun).(type) {
+		case *ast.Ident:
+			if o := info.Uses[fun]; o != nil && isLocal(o) {
+				args = append(args, fun.Name)
+			}
+		case *ast.SelectorExpr:
+			if o := rootObj(info, fun.X); o != nil && isLocal(o) {
+				if id, ok := ast.Unparen(fun.X).(*ast.Ident); ok {
+					args = append(args, id.Name)
+				}
+			}
+		}
+		for _, a := range call.Args {
+			if _, isLit := ast.Unparen(a).(*ast.FuncLit); isLit {
+				continue
+			}
+			if isNilIdent(info, a) {
+				continue
+			}
+			args = append(args, f.Prog.srcText(a))
+		}
+		return "func(...any) {}(" + strings.Join(args, ", ") + ")"
+	}
+	switch s := n.(type) {
+	case *ast.DeferStmt:
+		if _, isLit := ast.Unparen(s.Call.Fun).(*ast.FuncLit); !isLit {
+			return f.Wit(n, noop(s.Call), "delete-stmt")
+		}
+		// a deferred literal: drop the defer keyword's effect by not calling it
+		return f.Wit(n, "_ = "+f.Prog.srcText(s.Call.Fun), "delete-stmt")
+	case *ast.ExprStmt:
+		if call, ok := s.X.(*ast.CallExpr); ok {
+			return f.Wit(n, noop(call), "delete-stmt")
+		}
+	case *ast.AssignStmt:
+		if s.Tok == token.ASSIGN && len(s.Rhs) == 1 {
+			if !isNilIdent(info, s.Rhs[0]) {
+				blanks := strings.TrimSuffix(strings.Repeat("_, ", len(s.Lhs)), ", ")
+				return f.Wit(n, blanks+" = "+f.Prog.srcText(s.Rhs[0]), "delete-stmt")
+			}
+		}
+	case *ast.IncDecStmt:
+		return f.Wit(n, "_ = "+f.Prog.srcText(s.X), "delete-stmt")
+	}
+	return f.Wit(n, "{}", "delete-stmt")
+}
+
+// necessaryEdges returns the subset of safe edges that are individually
+// necessary: with all the others cut, leaving this one open makes a target
+// reachable from start. They are the meaningful witnesses of a guard rule.
+func necessaryEdges(g *Graph, start Point, safe map[Edge]bool, targets []Site, extra Cut) map[Edge]bool {
+	out := map[Edge]bool{}
+	for e := range safe {
+		rest := map[Edge]bool{}
+		for x := range safe {
+			if x != e {
+				rest[x] = true
+			}
+		}
+		for x := range extra.Edges {
+			rest[x] = true
+		}
+		cut := extra
+		cut.Edges = rest
+		if pt, _ := g.Reach(start, cut, atAnySite(targets)); pt != nil {
+			out[e] = true
+		}
+	}
+	return out
+}
 
 func sitePositions(ss []Site) []string {
 	var out []string
@@ -501,7 +576,7 @@ func (c *Ctx) requireGate(instance string, f *Func, gates []Site, want Outcome, 
 	sites := append(sitePositions(gates), sitePositions(targets)...)
 	r := Result{Instance: instance, Verdict: Discharged, Sites: sites, Evals: len(targets),
 		Detail: fmt.Sprintf("%s: cut %d outcome edge(s) of %s; %d target site(s) unreachable", what, len(edges), strings.Join(callNames(gates), "/"), len(targets)),
-		Witnesses: f.WitEdges(edges)}
+		Witnesses: f.WitEdges(necessaryEdges(g, g.Entry(), edges, targets, Cut{}))}
 	c.add(r)
 	return true
 }
